@@ -29,6 +29,7 @@ func init() {
 			{"C16/idle", "idle timeout written = Gateway.IdleTimeout, 0 when negative", c16Idle},
 			{"C16/config-timeout", "Caps.IdleTimeout is the int the configuration library reads from `idletimeout`; Load does not compute it", c16ConfigTimeout},
 			{"C16/policy-wiring", "main: redirect switches, idle timeout and auth switches initialised from the configuration fields of the same meaning", c16PolicyWiring},
+			{"C16/config-tags", "the configuration fields this property depends on are read from the documented keys: koanf tag = lower-cased field name", func(c *Ctx) { configTags(c, "C16/config-tags", map[string][]string{"Configuration": {"Caps"}, "RDGCapsConfig": {"*"}}) }},
 		},
 	})
 }
@@ -72,6 +73,15 @@ func bufferWrites(fn *ssa.Function) (writes []bufWrite, buf ssa.Value, ok bool, 
 	calls, straight := binaryIOCalls(fn, "encoding/binary.Write", "(*bytes.Buffer).Write", "(*bytes.Buffer).WriteByte", "(*bytes.Buffer).WriteString")
 	if !straight {
 		return nil, nil, false, "writes are not straight-line (branch or loop around a write)"
+	}
+	// every write is made on every path to every return: a return in the middle hands out a packet
+	// that lacks the fields written after it
+	for _, op := range calls {
+		for _, r := range returnsOf(fn) {
+			if !dominatesInstr(op.call, r) {
+				return nil, nil, false, "a return is reachable without all field writes (an early return in the middle of the builder)"
+			}
+		}
 	}
 	if len(calls) == 0 {
 		// the append style: b = binary.LittleEndian.AppendUint16(b, v); ...; b = append(b, data...)
